@@ -28,6 +28,18 @@ def _hc():
     return hc
 
 
+INT_DTYPES = [np.uint8, np.int8, np.uint16, np.int16, np.uint32, np.int32, np.uint64]
+
+
+def _narrow_dtypes(maxv):
+    """integer dtypes other than int64 that hold every value in [0, maxv]"""
+    return [dt for dt in INT_DTYPES if np.iinfo(dt).max >= maxv]
+
+
+def _as_int_list(a):
+    return [int(v) for v in np.asarray(a).ravel()]
+
+
 # ----------------------------------------------------------------------------- per-item relations
 def _check_items(n, p, dists, cells, fails, scalar=True):
     hc = _hc()
@@ -69,6 +81,16 @@ def _check_items(n, p, dists, cells, fails, scalar=True):
             if (ref != C).any():
                 i = int(np.nonzero((ref != C).any(axis=1))[0][0])
                 fails.append((B + ['reference', 'c_from_d'], f'p={p} d={dists[i]} lib={C[i].tolist()} ref={ref[i].tolist()}'))
+        # the vectorised entry point gives the same cells whatever integer dtype the distances arrive in
+        # (a dtype the function refuses is not a wrong answer)
+        for dt in _narrow_dtypes(max(dists)):
+            try:
+                Cd = hc.coordinates_from_distances(p, n, d.astype(dt))
+            except Exception:  # noqa: BLE001
+                continue
+            if _as_int_list(Cd) != _as_int_list(C):
+                fails.append((B + ['input-dtype', 'c_from_d'], f'n={n} p={p} d={dists} as {np.dtype(dt).name}: {np.asarray(Cd).tolist()} vs int64 {C.tolist()}'))
+                break
         if scalar:
             for i, v in enumerate(dists[:16]):
                 sc = lib(B + ['coordinate_from_distance'], hc.coordinate_from_distance, p, n, int(v))
@@ -100,6 +122,18 @@ def _check_items(n, p, dists, cells, fails, scalar=True):
             if (ref != D).any():
                 i = int(np.nonzero(ref != D)[0][0])
                 fails.append((B + ['reference', 'd_from_c'], f'p={p} cell={cells[i]} lib={int(D[i])} ref={int(ref[i])}'))
+        for dt in _narrow_dtypes(int(X.max())):
+            Xd = X.astype(dt)
+            try:
+                Dd = hc.distances_from_coordinates(p, Xd)
+            except Exception:  # noqa: BLE001
+                continue
+            if _as_int_list(Dd) != _as_int_list(D):
+                fails.append((B + ['input-dtype', 'd_from_c'], f'n={n} p={p} cells={cells} as {np.dtype(dt).name}: {_as_int_list(Dd)} vs int64 {_as_int_list(D)}'))
+                break
+            if (Xd != X.astype(dt)).any():
+                fails.append((B + ['mutates-input', 'distances_from_coordinates'], f'n={n} p={p} dtype={np.dtype(dt).name}'))
+                break
         if scalar:
             for i, c in enumerate(cells[:16]):
                 sc = lib(B + ['distance_from_coordinate'], hc.distance_from_coordinate, p, np.array(c, dtype=np.int64))
@@ -135,6 +169,15 @@ def _full(n, p, fails):
     back = np.asarray(hc.distances_from_coordinates(p, C.copy()))
     if (back != d).any():
         bad.append(int(np.nonzero(back != d)[0][0]))
+    # the same grid handed over in the narrowest unsigned dtype that holds a coordinate
+    dt = next((t for t in (np.uint8, np.uint16, np.uint32) if np.iinfo(t).max >= side - 1), None)
+    if dt is not None:
+        try:
+            back2 = np.asarray(hc.distances_from_coordinates(p, C.astype(dt)))
+        except Exception:  # noqa: BLE001
+            back2 = None
+        if back2 is not None and (back2.astype(np.int64) != d).any():
+            bad.append(int(np.nonzero(back2.astype(np.int64) != d)[0][0]))
     diff = np.abs(np.diff(C, axis=0))
     stepbad = ~((diff.sum(axis=1) == 1) & (diff.max(axis=1) == 1)) if total > 1 else np.zeros(0, bool)
     if stepbad.any():
